@@ -136,7 +136,7 @@ Definition ip4_flags_word (h : Ipv4.Ipv4Header) : N :=
 Lemma ip4_layout_fields h hb rest : Ipv4.wf_ip4 h = true -> Ipv4.ip4_to_bytes h = Some hb ->
   let d := hb ++ rest in
   B d 0 = 64 + (5 + Ipv4.i4o_len (Ipv4.i4_options h) / 4) /\ W d 2 = Ipv4.i4_total_len h /\
-  W d 6 = ip4_flags_word h /\ B d 9 = Ipv4.i4_protocol h.
+  W d 6 = ip4_flags_word h /\ B d 9 = Ipv4.i4_protocol h /\ B d 6 = (ip4_flags_word h / 256) mod 256.
 Proof.
   intros WH EB. cbv zeta. rewrite (Ipv4Proofs.ip4_spec h WH) in EB. apply Some_inj in EB. subst hb.
   destruct (Ipv4Proofs.wf_ip4_facts h WH) as ((R1 & R2 & R3 & R4) & (R5 & R6 & R7 & R8) & (LS & OS & LD & OD) & WO).
@@ -146,7 +146,7 @@ Proof.
              + Ipv4.i4_fragment_offset h).
   assert (FW : fw < 65536).
   { subst fw. destruct (Ipv4.i4_dont_fragment h), (Ipv4.i4_more_fragments h); cbn [Roundtrip.Spec.bit]; lia. }
-  split; [reflexivity|]. split; [|split; [|reflexivity]].
+  split; [reflexivity|]. split; [|split; [|split; reflexivity]].
   - unfold W. change (B _ 2) with ((Ipv4.i4_total_len h / 256) mod 256).
     change (B _ (2 + 1)) with (Ipv4.i4_total_len h mod 256). apply (u16_be_roundtrip _ R3).
   - unfold W. change (B _ 6) with ((fw / 256) mod 256). change (B _ (6 + 1)) with (fw mod 256).
@@ -374,7 +374,7 @@ Lemma ip4_built_fields e c p bs h x : cfg_wf c = true -> build e c p = BOk bs ->
   B bs (off_net c + 9) = snd (XM.set_next_headers4 x (tr_ip_number (c_transport c))) /\
   off_net c + Ipv4.ip4_header_len h <= len bs /\ len bs - off_net c < 65536 /\
   Ipv4.i4o_len (Ipv4.i4_options h) <= 40 /\ Ipv4.i4o_len (Ipv4.i4_options h) mod 4 = 0 /\
-  Ipv4.i4_fragment_offset h < 8192.
+  Ipv4.i4_fragment_offset h < 8192 /\ B bs (off_net c + 6) = (ip4_flags_word h / 256) mod 256.
 Proof.
   intros W E EN. destruct (cfg_wf_inv c W) as (WL & WV & WN & WT & WS).
   rewrite EN in WN. cbn [net_wf] in WN. apply andb_true_iff in WN. destruct WN as [WH WX].
@@ -383,14 +383,14 @@ Proof.
   pose proof (build_shape_x e c p bs W E) as SH. cbv zeta in SH. rewrite EN in SH.
   destruct SH as (LP & hb & xb & tb & EB & EH & LH & _).
   set (pre := link_bytes c ++ vlan_bytes c) in *. clearbody pre.
-  destruct (ip4_layout_fields _ hb (xb ++ tb ++ p) WF EH) as (F0 & F2 & F6 & F9). cbv zeta in *.
+  destruct (ip4_layout_fields _ hb (xb ++ tb ++ p) WF EH) as (F0 & F2 & F6 & F9 & F6b). cbv zeta in *.
   destruct (Ipv4Proofs.wf_ip4_facts h WH) as (_ & (R5 & _) & _ & WO).
   destruct (Ipv4Proofs.wf_i4o_facts _ WO) as (OL & OM & _).
   rewrite EB. rewrite !(B_at pre), !(W_at pre) by (symmetry; exact LP).
-  rewrite F0, F2, F6, F9.
+  rewrite F0, F2, F6, F9, F6b.
   rewrite OP, TL, PR. unfold ip4_flags_word. rewrite DF, MF, FO. rewrite <- EB.
   split; [reflexivity|]. split; [reflexivity|]. split; [reflexivity|]. split; [reflexivity|].
-  split; [exact LE|]. split; [exact LT|]. split; [exact OL|]. split; [exact OM|exact R5].
+  split; [exact LE|]. split; [exact LT|]. split; [exact OL|]. split; [exact OM|]. split; [exact R5|reflexivity].
 Qed.
 
 Lemma ip6_built_fields e c p bs h x : cfg_wf c = true -> build e c p = BOk bs -> c_net c = NtIpv6 h x ->
